@@ -5,6 +5,7 @@ MODULES = [
     "strictmode",
     "leaf",
     "composite",
+    "endtoend",
     "nameditemlist",
     "odxlink",
     "compu",
